@@ -596,6 +596,8 @@ def getitem(I, o, k, node):
         return wrap_elem(o.t[idx], o.elem)
     if isinstance(o, Sym) and o.kind == "bytes":
         raise OutsideSubset("indexing abstract bytes")
+    if isinstance(o, SObj) and isinstance(o.fields.get("__getitem__"), NativeFn):      # abstract object with a modelled __getitem__
+        return o.fields["__getitem__"].fn(I, [k], {})
     if isinstance(o, SObj) and isinstance(o.cls, ClassInfo):
         m = o.cls.find_method("__getitem__")
         if m is not None:
